@@ -197,6 +197,6 @@ Definition prop_b (c : case) : bool :=
   oracle_run (mkOView (trading (c_init c)) (map stat_of_link (links (c_init c))) (insts (c_init c))) (c_steps c).
 
 (** cases outside the input requirements (a request naming an instrument that does not exist; a
-    fill with non-positive quantity; an ill-formed initial state) are not judged *)
+    ill-formed initial state) are not judged *)
 Definition judge (c : case) : N :=
-  if valid_case c then judge_code (corr_b c) (prop_b c) 0 else 0%N.
+  if valid_case c && negb (degenerate_b c) then judge_code (corr_b c) (prop_b c) 0 else 0%N.
